@@ -255,6 +255,62 @@ def ws_table_obligation(work):
     return [("PyStr.is_ws = str.isspace on every code point", rc == 0, out[-1500:] if rc != 0 else "")]
 
 
+def rounding_obligation(work, pid, precisions=(53, 103), n=400):
+    """The rounding operators the code relies on, against Base.Rnd.round_ne applied to the exact result (Corr/Rounding.v): CPython float
+    +, -, *, / (p = 53) and mpmath's +, -, *, /, sqrt at the calculators' working precision dps = 30 (p = 103), on generated operands
+    (dyadic numbers of every size the calculators meet, operands of very different magnitude, ties, exact results, near-squares)."""
+    import random, mpmath
+    from fractions import Fraction
+    rng = random.Random(20260101 + int(pid[1:]))
+    terms = []
+    def operand(p):
+        k = rng.random()
+        if k < 0.3: m = rng.randint(-2**31, 2**31); e = rng.choice([0, 0, -1, -2, 1, 31])
+        elif k < 0.6: m = rng.getrandbits(rng.choice([p, p - 1, p // 2, 3, 64])) * rng.choice([1, -1]); e = rng.randint(-70, 40)
+        elif k < 0.8: m = rng.choice([1, 3, 5, 2**p - 1, 2**(p - 1) + 1, 2**(p - 1)]) * rng.choice([1, -1]); e = rng.randint(-p - 5, p + 5)
+        else: m = rng.randint(-10**6, 10**6); e = rng.randint(-6, 6)
+        x = Fraction(m) * Fraction(2) ** e
+        return x
+    save = mpmath.mp.prec
+    try:
+        for p in precisions:
+            if p == 53:
+                conv = float; back = Fraction
+                ops = [(0, lambda a, b: a + b), (1, lambda a, b: a - b), (2, lambda a, b: a * b), (3, lambda a, b: a / b)]
+            else:
+                mpmath.mp.dps = 30
+                if mpmath.mp.prec != p: return [("rounding operators = round_ne (dps 30 is %d bits, %d expected)" % (mpmath.mp.prec, p), False, "")]
+                conv = lambda q: mpmath.mpf(q.numerator) / mpmath.mpf(q.denominator) if q.denominator & (q.denominator - 1) else mpmath.ldexp(mpmath.mpf(q.numerator), -(q.denominator.bit_length() - 1))
+                def back(v):
+                    sign, man, exp, _ = v._mpf_
+                    return Fraction(-int(man) if sign else int(man)) * Fraction(2) ** int(exp)
+                ops = [(0, lambda a, b: a + b), (1, lambda a, b: a - b), (2, lambda a, b: a * b), (3, lambda a, b: a / b), (4, lambda a, b: mpmath.sqrt(a))]
+            made = 0
+            while made < n:
+                a, b = operand(p), operand(p)
+                if p == 53 and (max(a.numerator.bit_length(), b.numerator.bit_length()) > 53): continue
+                if p != 53 and (max(a.numerator.bit_length(), b.numerator.bit_length()) > p): continue
+                op, f = rng.choice(ops)
+                if op == 3 and b == 0: continue
+                if op == 4:
+                    a = abs(a)
+                    if rng.random() < 0.4: a = a * a if a.numerator.bit_length() * 2 <= p else a            # exact squares, and their neighbours
+                    if rng.random() < 0.2: a = a + Fraction(1, 2 ** rng.randint(1, 60))
+                    if a.numerator.bit_length() > p: continue
+                try:
+                    r = back(f(conv(a), conv(b)))
+                except (OverflowError, ZeroDivisionError):
+                    continue
+                terms.append("(KR %d %d %s %s %s)" % (p, op, cq(a), cq(b), cq(r))); made += 1
+    finally:
+        mpmath.mp.prec = save
+    bad, errors, _ = run_coq_cases(work, "From Plotink Require Import Base.Prelude Base.Rnd Corr.Rounding.\nOpen Scope Q_scope.", "runR", "rcase", terms, shard=200, tag="rounding")
+    detail = ""
+    if errors: detail = "shards failed: %s" % errors[:1]
+    elif bad: detail = "operations whose result is not round_ne of the exact result: %s" % [terms[i] for i in list(bad)[:3]]
+    return [("rounding operators of CPython floats and of mpmath at dps 30 = Base.Rnd.round_ne on %d generated operations" % len(terms), not bad and not errors, detail)]
+
+
 def kernel_obligations(work, pid, source, names, mode="q"):
     """Translate the named loop-free functions of /repo's current `source` to Gallina and compile them together with the committed
     equivalence lemmas tools/py2v_eq/<pid>.v (which tie them to the hand-written model).  Returns [(name, good, detail)]."""
